@@ -308,6 +308,7 @@ class Gen:
                 # ufl requires "true scalars" (no shape, no free indices) here
                 add("pow", "pow", 2)
                 add("ipow", "ipow", 2)
+                add("holo", "holo", 2)
                 add("fn", "math", 2)
                 add("minmax", "cond")
                 add("sign", "sign")
@@ -457,6 +458,9 @@ class Gen:
             if k == "real":
                 return ["pow", self.positive(e((), free, d)), ["lit", self.pick([0.5, 1.5, 2.5, -1.5])]]
             return ["pow", self.positive(e((), free, d)), self.bounded(e((), (), min(d, 1)))]
+        if op == "holo":
+            # entire functions only: no branch cuts
+            return ["fn", self.pick(["exp", "sin", "cos", "sinh", "cosh"]), ["mul", ["lit", 0.3], e((), free, d)]]
         if op == "ipow":
             return ["pow", e((), free, d), ["lit", self.pick([0, 1, 2, 2, 3])]]
         if op == "fn":
